@@ -128,6 +128,51 @@ func Special(g *G, thor bool) []Program {
 			}
 		}
 	}
+	// cancellation next to the bottom of the exponent range: the operands are representable, their difference
+	// is not (it underflows to a zero that must keep the sign of the exact difference and an inexact accuracy),
+	// or just is. Six modes x Add/Sub/FMA x sign of the result x which operand is larger.
+	for m := 0; m < 6; m++ {
+		for _, op := range []string{"Add", "Sub", "FMA"} {
+			for sg := 0; sg < 2; sg++ {
+				for big := 0; big < 2; big++ {
+					prefix := g.Digits(1 + g.R.Intn(5))
+					tail := func() string {
+						if k := g.R.Intn(4); k > 0 {
+							return g.Digits(k)
+						}
+						return ""
+					}
+					a := prefix + g.PickS("7", "9", "5") + tail()
+					b := prefix + g.PickS("1", "3", "4") + tail()
+					if big == 1 {
+						a, b = b, a
+					}
+					e := int64(-2147483648) + int64(g.R.Intn(len(prefix)+2))
+					xneg := sg == 1
+					yneg := !xneg
+					if op == "Sub" {
+						yneg = xneg
+					}
+					g.Load("r0", xneg, a, e, 0, g.Mode())
+					g.Load("r1", yneg, b, e, 0, g.Mode())
+					z := "r2"
+					if g.R.Intn(3) == 0 {
+						z = g.PickS("r0", "r1")
+						g.Emit(M{"op": "SetMode", "z": z, "m": m})
+					} else {
+						g.Receiver("r2", g.Pick(0, 0, 3, 20), m)
+					}
+					if op == "FMA" {
+						g.Load("r3", false, "1", 1, 0, g.Mode())
+						g.Emit(M{"op": "FMA", "z": z, "x": "r0", "y": "r3", "u": "r1"})
+					} else {
+						g.Emit(M{"op": op, "z": z, "x": "r0", "y": "r1"})
+					}
+					flush()
+				}
+			}
+		}
+	}
 	// FMA: 216 class triples x 6 modes, random aliasing partition and precision
 	for _, cx := range classes {
 		for _, cy := range classes {
